@@ -43,7 +43,9 @@ def roundtrip(text: str) -> dict:
         return r
     try:
         with time_limit(20):
-            r["out2"] = parse(r["out"]).rebuild()
+            src2 = parse(r["out"])
+            r["err2"] = bool(src2.contains_error)      # what `nima test' would say about the rebuilt text
+            r["out2"] = src2.rebuild()
     except BaseException as e:  # noqa: BLE001
         if isinstance(e, (KeyboardInterrupt, SystemExit)):
             raise
